@@ -145,6 +145,15 @@ CHECKS = {
             "ratios; TLC takes the verdict per line (residual <= 2e-5 of the scale, all parts finite).",
             "Trusted: TLC, scipy.quad, the third-party libraries called inside kernels. Tolerance 2e-5 from the published-digit rounding of "
             "the NNLO/N3LO parametrisations (largest legitimate residual 1.6e-6, seeded defects >= 5e-3).", "DESIGN.md 7/C03"),
+    "C04": ("exploration",
+            "TLC proves Adler / GLS / Bjorken on the literature NLO tables by exact Mellin integration over Q[zeta2] (Numerics.tla) and emits "
+            "tables and sum-rule constants; first moments and pointwise values of the real kernels by quadrature / z lattice; TLC judges",
+            "Moments and 'for all z' are statements of real analysis, sampled here (quadrature, 64-point lattice). The specification "
+            "contributes the exact constants per order and nf (zeta atoms at a_s^3, light-by-light term separately), the NLO closed forms "
+            "as exact monomial tables whose own first moments TLC proves to obey the sum rules (validating the oracle), the enumeration "
+            "(rule x order x nf x NC/CC even/odd class, every nf requested twice in one process) and the verdict per recorded line.",
+            "Trusted: TLC, scipy.quad, numerical zeta values. Tolerances: per mille of the constant (authors' stated accuracy of the "
+            "parametrisations; measured <= 1.7e-4) plus 3e-5 of int|c| for vanishing constants; closed forms 1e-10.", "DESIGN.md 7/C04"),
 }
 
 PENDING = {}
